@@ -111,7 +111,12 @@ def check(run):
     # consumers that index edge k explicitly: the child tables must refer to edges 0..n-1 and corners 0..2
     for spec in ("trimesh.remesh:subdivide", "trimesh.remesh:subdivide_loop._subdivide"):
         fi = ix.func(spec)
-        tris, fv, mv, w = child_table(fi.node, spec)
+        try:
+            tris, fv, mv, w = child_table(fi.node, spec)
+        except AnalysisError as e_:
+            run.instance("R3", fi.where, f"child table of {spec.split(':')[1]} not in a recognised form ({str(e_)[:80]}) - NOT decided", True, nontrivial=False)
+            run.assume(f"{spec}: the child table of the subdivision is not in a recognised form; its edge / corner indices are not decided")
+            continue
         cols_ok = all(0 <= c < (n if kind == "m" else 3) for t in tris for kind, c in t)
         # def-use: inverse <- unique_rows(E); E <- faces_to_edges(F ...); F must be the table's face array
         srcs = _edge_source(fi.node)
